@@ -22,6 +22,7 @@ type Engine struct {
 	prelude *Prelude
 	funcs   map[string]*ssa.Function
 	nonNilGlobal map[*ssa.Global]bool
+	globalDyn    map[*ssa.Global]types.Type // dynamic type of an interface-typed global initialised once
 	adapters []*ReplayAdapter
 }
 
@@ -72,11 +73,10 @@ func LoadEngine(repo, preludePath string) (*Engine, error) {
 // be nil (errors.New, fmt.Errorf, &T{...}). Loads of such variables are non-nil.
 func (eng *Engine) findNonNilGlobals() {
 	eng.nonNilGlobal = map[*ssa.Global]bool{}
+	eng.globalDyn = map[*ssa.Global]types.Type{}
 	stores := map[*ssa.Global][]*ssa.Store{}
 	for _, fn := range eng.funcs {
-		if !eng.inRepo(fn) {
-			continue
-		}
+		// all functions of all packages: a global counts only if its single store is in an initialiser
 		for _, b := range fn.Blocks {
 			for _, in := range b.Instrs {
 				if st, ok := in.(*ssa.Store); ok {
@@ -94,6 +94,9 @@ func (eng *Engine) findNonNilGlobals() {
 		v := ss[0].Val
 		if mi, ok := v.(*ssa.MakeInterface); ok {
 			v = mi.X
+			if _, isAlloc := v.(*ssa.Alloc); isAlloc {
+				eng.globalDyn[g] = v.Type()
+			}
 		}
 		switch x := v.(type) {
 		case *ssa.Alloc:
@@ -103,6 +106,12 @@ func (eng *Engine) findNonNilGlobals() {
 				switch sc.String() {
 				case "errors.New", "fmt.Errorf", "google.golang.org/grpc/status.Error", "google.golang.org/grpc/status.Errorf":
 					eng.nonNilGlobal[g] = true
+					if sc.String() == "errors.New" && sc.Pkg != nil {
+						// errors.New returns a *errors.errorString
+						if o := sc.Pkg.Pkg.Scope().Lookup("errorString"); o != nil {
+							eng.globalDyn[g] = types.NewPointer(o.Type())
+						}
+					}
 				default:
 					if returnsFreshObject(sc) {
 						eng.nonNilGlobal[g] = true
